@@ -91,6 +91,10 @@ impl<'a> Lexer<'a> {
             String,
             /// In a string after the escape character \
             StringEscaped,
+            /// In a string after the escape sequence \u
+            StringEscapedU,
+            /// In a string inside a unicode escape \u{...}
+            StringUnicode,
         }
         struct Stack {
             i: usize,
@@ -128,10 +132,19 @@ impl<'a> Lexer<'a> {
                 ('\\', State::String) => {
                     state = State::StringEscaped;
                 }
-                (_, State::StringEscaped) => {
+                ('u', State::StringEscaped) => {
+                    state = State::StringEscapedU;
+                }
+                ('{', State::StringEscapedU) => {
+                    state = State::StringUnicode;
+                }
+                ('}', State::StringUnicode) => {
                     state = State::String;
                 }
-                (_, State::Regular | State::Comment | State::String) => {}
+                (_, State::StringEscaped | State::StringEscapedU) => {
+                    state = State::String;
+                }
+                (_, State::Regular | State::Comment | State::String | State::StringUnicode) => {}
             }
             i += c.len_utf8();
         }
